@@ -1,112 +1,29 @@
 package main
 
 import (
-	"bufio"
 	"fmt"
 	"io"
 	"net"
-	"os"
-	"runtime"
-	"strings"
 	"time"
 
 	"github.com/bluenviron/gortsplib/v5"
-	"github.com/bluenviron/gortsplib/v5/pkg/base"
-	"github.com/bluenviron/gortsplib/v5/pkg/description"
-	"github.com/bluenviron/gortsplib/v5/pkg/format"
 )
 
-type handler struct {
-	stream *gortsplib.ServerStream
-}
-
-func (h *handler) OnConnOpen(ctx *gortsplib.ServerHandlerOnConnOpenCtx)   { fmt.Println("conn open") }
-func (h *handler) OnConnClose(ctx *gortsplib.ServerHandlerOnConnCloseCtx) { fmt.Println("conn close", ctx.Error) }
-func (h *handler) OnSessionOpen(ctx *gortsplib.ServerHandlerOnSessionOpenCtx) {
-	fmt.Println("session open")
-}
-func (h *handler) OnSessionClose(ctx *gortsplib.ServerHandlerOnSessionCloseCtx) {
-	fmt.Println("session close", ctx.Error)
-}
-func (h *handler) OnDescribe(ctx *gortsplib.ServerHandlerOnDescribeCtx) (*base.Response, *gortsplib.ServerStream, error) {
-	return &base.Response{StatusCode: base.StatusOK}, h.stream, nil
-}
-func (h *handler) OnSetup(ctx *gortsplib.ServerHandlerOnSetupCtx) (*base.Response, *gortsplib.ServerStream, error) {
-	if ctx.Session.State() == gortsplib.ServerSessionStatePreRecord {
-		return &base.Response{StatusCode: base.StatusOK}, nil, nil
-	}
-	return &base.Response{StatusCode: base.StatusOK}, h.stream, nil
-}
-func (h *handler) OnPlay(ctx *gortsplib.ServerHandlerOnPlayCtx) (*base.Response, error) {
-	return &base.Response{StatusCode: base.StatusOK}, nil
-}
-func (h *handler) OnAnnounce(ctx *gortsplib.ServerHandlerOnAnnounceCtx) (*base.Response, error) {
-	return &base.Response{StatusCode: base.StatusOK}, nil
-}
-func (h *handler) OnRecord(ctx *gortsplib.ServerHandlerOnRecordCtx) (*base.Response, error) {
-	return &base.Response{StatusCode: base.StatusOK}, nil
-}
-
 func main() {
-	h := &handler{}
-	s := &gortsplib.Server{
-		Handler:        h,
-		RTSPAddress:    "127.0.0.1:18554",
-		UDPRTPAddress:  "127.0.0.1:18000",
-		UDPRTCPAddress: "127.0.0.1:18001",
-		ReadTimeout:    500 * time.Millisecond,
-		IdleTimeout:    1 * time.Second,
-	}
+	s := &gortsplib.Server{RTSPAddress: "127.0.0.1:0", IdleTimeout: time.Second}
 	if err := s.Start(); err != nil {
 		panic(err)
 	}
-	desc := &description.Session{Medias: []*description.Media{
-		{Type: description.MediaTypeVideo, Formats: []format.Format{&format.H264{PayloadTyp: 96, PacketizationMode: 1}}},
-		{Type: description.MediaTypeAudio, Formats: []format.Format{&format.G711{PayloadTyp: 0, MULaw: true, SampleRate: 8000, ChannelCount: 1}}},
-	}}
-	h.stream = &gortsplib.ServerStream{Server: s, Desc: desc}
-	if err := h.stream.Initialize(); err != nil {
+	c, err := net.Dial("tcp", s.NetListener().Addr().String())
+	if err != nil {
 		panic(err)
 	}
-	base0 := runtime.NumGoroutine()
-	fmt.Println("goroutines", base0, s.VerifLedger())
-
-	// a full raw conversation
-	c, _ := net.Dial("tcp", "127.0.0.1:18554")
-	br := bufio.NewReader(c)
-	sid := ""
-	send := func(s string) {
-		io.WriteString(c, s)
-		c.SetReadDeadline(time.Now().Add(3 * time.Second))
-		var lines []string
-		cl := 0
-		for {
-			l, err := br.ReadString('\n')
-			if err != nil {
-				fmt.Println("ERR", err)
-				return
-			}
-			l = strings.TrimRight(l, "\r\n")
-			if l == "" {
-				break
-			}
-			fmt.Sscanf(l, "Content-Length: %d", &cl)
-			lines = append(lines, l)
-			if strings.HasPrefix(l, "Session: ") {
-				sid = strings.Split(l[9:], ";")[0]
-			}
-		}
-		io.CopyN(io.Discard, br, int64(cl))
-		fmt.Println("<<", strings.Join(lines, " | "))
-	}
-	sdp := "v=0\r\no=- 0 0 IN IP4 127.0.0.1\r\ns=x\r\nc=IN IP4 0.0.0.0\r\nt=0 0\r\nm=video 0 RTP/AVP 96\r\na=rtpmap:96 H264/90000\r\na=fmtp:96 packetization-mode=1\r\na=control:trackID=0\r\n"
-	send(fmt.Sprintf("ANNOUNCE rtsp://127.0.0.1:18554/pub RTSP/1.0\r\nCSeq: 1\r\nContent-Type: application/sdp\r\nContent-Length: %d\r\n\r\n%s", len(sdp), sdp))
-	send("SETUP rtsp://127.0.0.1:18554/pub/trackID=0 RTSP/1.0\r\nCSeq: 2\r\nTransport: RTP/AVP;unicast;client_port=" + os.Args[1] + ";mode=record\r\n\r\n")
-	send("RECORD rtsp://127.0.0.1:18554/pub RTSP/1.0\r\nCSeq: 3\r\nSession: " + sid + "\r\n\r\n")
-	c.Close()
-	for i := 0; i < 10; i++ {
-		time.Sleep(500 * time.Millisecond)
-		fmt.Println(i, s.VerifLedger(), runtime.NumGoroutine())
-	}
+	io.WriteString(c, "GET / HTTP/1.1\r\nHost: x\r\nConnection: Upgrade\r\nUpgrade: websocket\r\nSec-WebSocket-Protocol: rtsp.onvif.org\r\nSec-WebSocket-Version: 13\r\nSec-WebSocket-Key: dGhlIHNhbXBsZSBub25jZQ==\r\n\r\nEXTRA")
+	buf := make([]byte, 1000)
+	c.SetReadDeadline(time.Now().Add(2 * time.Second))
+	n, err := c.Read(buf)
+	fmt.Printf("client read: %q %v\n", buf[:n], err)
+	time.Sleep(500 * time.Millisecond)
+	fmt.Println("server process still alive")
 	s.Close()
 }
